@@ -244,7 +244,10 @@ func (im *impl) exec(f []string) (res string) {
 		mb.Release(h) // panics when h != depth
 		if h != 0 {
 			im.depth--
+			inner := im.regs[len(im.regs)-1]
 			im.popReg()
+			// tokens taken inside the released level stay valid in the level below
+			im.regs[len(im.regs)-1] = append(im.regs[len(im.regs)-1], inner...)
 		}
 		return "ok"
 	case "cleanup":
@@ -806,13 +809,17 @@ func (g *gen) mutator() []string {
 	case x < 71:
 		if g.depth > 0 && g.rng.Intn(12) != 0 {
 			g.depth--
+			n := g.regs[len(g.regs)-1]
 			g.regs = g.regs[:len(g.regs)-1]
+			g.regs[len(g.regs)-1] += n
 			return []string{"release", strconv.Itoa(g.depth + 1)}
 		}
 		h := g.rng.Intn(g.depth + 2) // 0, wrong handles: no-op / panic
 		if h == g.depth && h > 0 {
 			g.depth--
+			n := g.regs[len(g.regs)-1]
 			g.regs = g.regs[:len(g.regs)-1]
+			g.regs[len(g.regs)-1] += n
 		}
 		return []string{"release", strconv.Itoa(h)}
 	case x < 81:
@@ -1156,9 +1163,20 @@ func directed() {
 		{"siter", "0", "-", "_"}, {"siter", "0", "_", "_"}, {"siter", "1", "-", "-"}, {"siter", "1", "_", "_"}, {"siter", "1", "_", "-"}, {"siter", "1", "62", "_"},
 		{"iter", "0", "-", "_"}, {"iter", "1", "_", "_"}, {"release", "1"}, {"iter", "0", "_", "_"},
 	})
-	// F03b witness
+	// F03/F03b regression (fixed by 6b4091a): a same-length overwrite after a checkpoint is undone by the revert
 	emit("d-f03b", [][]string{
 		{"set", "78", "6161", "-"}, {"cp"}, {"set", "78", "6262", "-"}, {"revert", "0"}, {"get", "78"},
+	})
+	// the same inside a stage, revert / overwrite / revert again, a token older than a released stage, a token taken
+	// inside a stage used after its release, and a cleanup that cuts the log below the latest checkpoint
+	emit("d-f03b-more", [][]string{
+		{"staging"}, {"set", "78", "6161", "-"}, {"cp"}, {"set", "78", "6262", "-"}, {"revert", "0"}, {"get", "78"},
+		{"set", "78", "6363", "-"}, {"get", "78"}, {"revert", "0"}, {"get", "78"}, {"hist", "78", "any"},
+		{"staging"}, {"set", "78", "6464", "-"}, {"cp"}, {"set", "78", "6565", "-"}, {"release", "2"},
+		{"set", "78", "6666", "-"}, {"revert", "1"}, {"get", "78"}, {"revert", "0"}, {"get", "78"}, {"inspect", "1"},
+		{"staging"}, {"set", "79", "r4bx17", "-"}, {"set", "7a", "7a66", "-"}, {"cp"}, {"set", "79", "7676", "-"}, {"cp"},
+		{"cleanup", "2"}, {"set", "7a", "6e63", "-"}, {"set", "79", "6b", "-"}, {"set", "7a", "6469", "-"}, {"set", "79", "76", "-"},
+		{"inspect", "1"}, {"hist", "7a", "any"}, {"hist", "79", "any"}, {"cleanup", "1"}, {"get", "78"}, {"len"}, {"size"},
 	})
 }
 
